@@ -1226,10 +1226,10 @@ func (interp *Interpreter) cfg(root *node, sc *scope, importPath, pkgName string
 				wireChild(n)
 				if typ := c0.typ; len(typ.ret) > 0 {
 					n.typ = typ.ret[0]
-					if n.anc.kind == returnStmt && n.typ.id() == sc.def.typ.ret[0].id() {
+					if pos := childPos(n); n.anc.kind == returnStmt && pos < len(sc.def.typ.ret) && n.typ.id() == sc.def.typ.ret[pos].id() {
 						// Store the result directly to the return value area of frame.
 						// It can be done only if no type conversion at return is involved.
-						n.findex = childPos(n)
+						n.findex = pos
 					} else {
 						n.findex = sc.add(n.typ)
 						for _, t := range typ.ret[1:] {
@@ -1262,7 +1262,7 @@ func (interp *Interpreter) cfg(root *node, sc *scope, importPath, pkgName string
 					}
 				case n.anc.kind == returnStmt:
 					// Store result directly to frame output location, to avoid a frame copy.
-					n.findex = 0
+					n.findex = childPos(n)
 				case bname == "cap" && isInConstOrTypeDecl(n):
 					t := n.child[1].typ.TypeOf()
 					for t.Kind() == reflect.Ptr {
@@ -1416,10 +1416,10 @@ func (interp *Interpreter) cfg(root *node, sc *scope, importPath, pkgName string
 				}
 				if typ := c0.typ; len(typ.ret) > 0 {
 					n.typ = typ.ret[0]
-					if n.anc.kind == returnStmt && n.typ.id() == sc.def.typ.ret[0].id() {
+					if pos := childPos(n); n.anc.kind == returnStmt && pos < len(sc.def.typ.ret) && n.typ.id() == sc.def.typ.ret[pos].id() {
 						// Store the result directly to the return value area of frame.
 						// It can be done only if no type conversion at return is involved.
-						n.findex = childPos(n)
+						n.findex = pos
 					} else {
 						n.findex = sc.add(n.typ)
 						for _, t := range typ.ret[1:] {
